@@ -20,7 +20,7 @@ class C16(Prop):
             "largest > 0; distinct = distinct (largest, truncated, length) triples")
     reach = ["pnlen_1", "pnlen_2", "pnlen_3", "pnlen_4", "skip_to_window_boundary", "largest_above_2_53",
              "largest_above_2_32", "reordered_packet", "duplicate_packet", "lost_packet", "space_initial", "space_handshake",
-             "space_application", "both_directions", "candidate_minus_window", "candidate_plus_window"]
+             "space_application", "both_directions", "candidate_minus_window", "candidate_plus_window", "two_connections"]
 
     def plan(self, tier):
         p = super().plan(tier)
@@ -45,7 +45,13 @@ class C16(Prop):
                             pk["pnlen"] = n
                             pk["skip"] = max(0, (1 << (8 * n - 1)) + B.choice([-3, -2, -1, 0]) - 1 - B.choice([0, 0, 1, 2]))
                             pk["boundary"] = True
-        spec = {"prop": "C16", "conns": [conn], "tap": gen.gen_tap(R.fork("tap"))}
+        conns = [conn]
+        if R.chance(30):
+            # a second, concurrent connection: packet-number state must be per connection
+            c2 = quicpeer.gen_quic_conn(R.fork("conn2"), 1, cfg, used)
+            conns.append(c2)
+        spec = {"prop": "C16", "conns": conns, "tap": gen.gen_tap(R.fork("tap")),
+                "policy": R.choice(["concurrent", "staggered", "sequential"])}
         if idx % 2:
             P = R.fork("preset")
             pre = {}
@@ -55,7 +61,7 @@ class C16(Prop):
                 L = max(0, min(L, (1 << 62) - (1 << 33)))
                 q["pn0"][k] = L + 1
                 pre[side] = {"RTT_1": L}
-            spec["pn_preset"] = pre
+            spec["pn_preset"] = {str(conn["c"]["port"]): pre}     # per connection (keyed by client port)
         return spec
 
     def check(self, lane, spec):
@@ -63,17 +69,21 @@ class C16(Prop):
         ex = world.expand(spec)
         out.sim_time_ns = ex["stats"]["sim_time_ns"]
         res = run_export(lane, spec, ex, out, probes=["quic"], pn_preset=spec.get("pn_preset"))
-        conn = spec["conns"][0]
-        t = ex["truth"]["conns"][0]
-        out.sample = {"seed": spec.get("seed"), "conn": describe_conn(conn), "preset": spec.get("pn_preset")}
+        out.sample = {"seed": spec.get("seed"), "conns": [describe_conn(c) for c in spec["conns"]], "preset": spec.get("pn_preset")}
         fc = failure_class(res)
         if fc:
             out.violate("no-failure", fc, failure_detail(res))
             return out
-        calls = [p for p in (res.probes or []) if p[0] == "q_pn"]
+        all_calls = [p for p in (res.probes or []) if p[0] == "q_pn"]
+        for conn, t in zip(spec["conns"], ex["truth"]["conns"]):
+            calls = [p for p in all_calls if p[1] == conn["c"]["port"]]
+            self.judge_conn(out, spec, conn, t, calls, preset_applies=(conn["id"] == 0))
+        return out
+
+    def judge_conn(self, out, spec, conn, t, calls, preset_applies):
         # model: captured packets in capture order with their full packet numbers
         model_largest = {}
-        pre = spec.get("pn_preset") or {}
+        pre = (spec.get("pn_preset") or {}).get(str(conn["c"]["port"]), {})
         for side in "cs":
             for sp in ("INITIAL", "HANDSHAKE", "RTT_1"):
                 model_largest[(side, sp)] = int(pre.get(side, {}).get(sp, 0))
@@ -139,7 +149,8 @@ class C16(Prop):
                 model_largest[(d, sp)] = max(ml, pn)
         if len(set(c[2] for c in calls)) > 1:
             out.count("reach:both_directions")
-        return out
+        if len(spec["conns"]) > 1:
+            out.count("reach:two_connections")
 
     def reach_probe(self, out, t):
         seen = set()
